@@ -166,6 +166,7 @@ def check_writer(ctx):
                expected=src, found=str(v)[:160], sample={"rule": "C10.2", "variable": var, "dims": row["dims"], "dtype": row["dtype"], "source": str(v)[:120]})
         if len(dims) >= 3 or var in ("lat", "lon", "altitude", "leadtime", "threshold", "quantile", "time"):
             ctx.ob("C10.2", site, (row["dtype"] or "").startswith("f"), "'%s' is stored as floating point" % var, loc=loc, msg="'%s' has dtype %s" % (var, row["dtype"]))
+    ncwriter.check_exact_coordinates(ctx, "C10.2", site, prog, m, table)
     others = [k for k in table if k.startswith("<")]
     ok = False
     for k in others:
